@@ -297,7 +297,15 @@ PROPS['C20'] = dict(
             D('SubDecorator', 'MCSubDecorator_closers2_k2.cfg', workers=8),
             D('SubDecorator', 'MCSubDecorator_closers2.cfg', workers=8, tier='thorough', timeout=1800),
             D('SubDecorator', 'MCSubDecorator_mut_earlyreturn.cfg', expect='fail', violates='CloseComplete'),
-            D('SubDecorator', 'MCSubDecorator_mut_checkthenclose.cfg', expect='fail', violates='NoDoubleSignal')],
+            D('SubDecorator', 'MCSubDecorator_mut_checkthenclose.cfg', expect='fail', violates='NoDoubleSignal'),
+            # the WaitGroup protocol of the decorator on its own: TLC for 3 subscriptions x 2 Close calls, Apalache by induction below
+            D('SubDecoratorWg', 'MCSubDecoratorWg.cfg')],
+    # NoAddDuringWait / CloseComplete for EVERY set of subscriptions within a universe of five names and every set of overlapping
+    # Close calls within a universe of three, by induction
+    apalache=[dict(module='SubDecoratorWg', cinit='ConstInit', steps=[
+        ('Init => IndInv', ['--init=Init', '--inv=IndInv', '--length=0']),
+        ("IndInv /\\ Next => IndInv'", ['--init=IndInit', '--inv=IndInv', '--length=1']),
+        ('IndInv => NoAddDuringWait /\\ CloseComplete', ['--init=IndInit', '--inv=Safety', '--length=0'])])],
     traces={'PubSubDecoratorsTrace': dict(module='PubSubDecoratorsTrace', cfg='PubSubDecoratorsTrace.cfg'),
             'SubDecoratorTrace': dict(module='SubDecoratorTrace', cfg='SubDecoratorTrace.cfg', timeout=1800)},
     selftests=[('SubDecoratorTrace', 'drop', dict(e='hook', point='decorator.close.signalled'))],
